@@ -181,6 +181,7 @@ def monitor(lines, impl, which):
                         return f"message {mid} delivered {s['recv']} times (duplication rate at send: {s['ns']['dupl']})"
                     if s["sn"] != s["dn"] and s["ns"]["drop"] >= 1.0:
                         return f"message {mid} delivered although the drop rate was {s['ns']['drop']} when it was sent"
+                if which in ("C05", "C06"):
                     lo, hi = (0.0, 0.0) if s["sn"] == s["dn"] else (s["ns"]["min"], s["ns"]["max"])
                     if not (s["t"] + lo <= et <= s["t"] + hi):
                         return f"message {mid} sent at {s['t']} arrived at {et}, outside [{s['t'] + lo}, {s['t'] + hi}]"
